@@ -105,7 +105,38 @@ pub fn run(p: &Params, rep: &mut Report) {
         rep.sample(|| format!("order triple {} {} {}", show_str(&a), show_str(&b), show_str(&c)));
     }
 
+    // long strings: every common-prefix length 0..=70 x every kind of tail (shorter, longer, smaller, greater)
+    if p.shard < 8 {
+        let fill = [0x61u32, 0x62, 0, 0x2FFFF, 0x61, 0x61, 0x62, 0x61][p.shard as usize];
+        for plen in 0..=70usize {
+            let prefix: Vec<u32> = (0..plen).map(|i| if i % 7 == 3 { 0x62 } else { fill }).collect();
+            let tails: [&[u32]; 6] = [&[], &[0x61], &[0x62], &[0x61, 0x61], &[0x62, 0], &[0x2FFFF]];
+            for ta in tails {
+                for tb in tails {
+                    let mut a = prefix.clone();
+                    a.extend_from_slice(ta);
+                    let mut b = prefix.clone();
+                    b.extend_from_slice(tb);
+                    check_order(rep, &a, &b, seed);
+                    rep.eval(Some(&format!("lp{}|{:?}|{:?}|{}", plen, ta, tb, fill)));
+                }
+            }
+        }
+        rep.inc("long_common_prefix_sweeps");
+    }
+
     // ---- str_to_int
+    // numerals with 0..=40 leading zeros (the value stays small, the string gets long)
+    if p.shard == 1 {
+        for zeros in 0..=40usize {
+            for val in ["0", "1", "9", "10", "2147483647", "2147483648", "4294967296", "99999"] {
+                let mut w: Vec<u32> = vec![0x30; zeros];
+                w.extend(val.chars().map(|c| c as u32));
+                check_to_int(rep, &w, seed);
+                rep.eval(Some(&format!("z{}|{}", zeros, val)));
+            }
+        }
+    }
     // all digit strings of length <= 5 (with leading zeros), sharded
     for len in 1..=5u32 {
         let count = 10u64.pow(len);
